@@ -298,7 +298,18 @@ class Ctx:
                 else:
                     d[ln[:sp]] = ln[sp + 1:]
             return d
-        return parse(res.get('impl', b'')), parse(res.get('model', b''))
+        impl = parse(res.get('impl', b''))
+        # A time-out may be the machine's, not the implementation's (other processes side by side): the cases that
+        # timed out run once more, alone, with three times the limit. A real hang times out again.
+        late = [ln for ln in lines if impl.get(ln.split(' ')[1] if ' ' in ln else '', '') == 'timeout']
+        if late and len(late) <= 200 and not getattr(self, '_retrying', False):
+            self._retrying = True
+            try:
+                again, _ = self.run_pair(late, variant=variant, timeout_ms=timeout_ms * 3, model=False, tag=tag)
+                impl.update(again)
+            finally:
+                self._retrying = False
+        return impl, parse(res.get('model', b''))
 
     def elapsed(self):
         return time.time() - self.t0
